@@ -21,6 +21,16 @@ _WIP = "check not built yet in this session (design in DESIGN.md section 6); not
 NOT_APPLICABLE = {("C%02d" % i): _WIP for i in range(1, 21)}
 
 PROPS = {
+    "C04": {
+        "engine": "c04", "monitors": ["c04"], "finding_checks": {"montn": "typed-nil-in-abstract-position"},
+        "engine_timeout": {"quick": 900, "thorough": 7200},
+        "technique": "Coq proof (containment over one-hole contexts of outcome trees: congruence, chain propagation, compositional errors, recover count) + exhaustive single-fault enumeration on generated probe servers compared with the model",
+        "level_text": "Theorems for every context, every non-null chain below a nullable ancestor and every failure class: the data equals the data with that ancestor null (nothing outside changes), errors grow by exactly the failure's entry at its path; nullable positions absorb; errors of multi-fault sets are compositional; the recover hook count equals the panics reached. Every check enumerates every single fault point (each resolver and directive invocation from the log) x {error, panic} on probe servers generated from the current templates with worker_limit 0, 1 and 2, plus random multi-fault sets, requires the specified response, recover count = panics, and that the probe process survives. Panics on spawned goroutines are exercised (concurrent siblings, list elements); panics inside custom marshalers and subscription events are not yet: partial.",
+        "level_note": "Trusted: Coq kernel + vm_compute; harness; the tie between gqlgen's completion and the specification's is C01's theorem. 'The process keeps serving' is observed (the same probe process answers all later cases).",
+        "trusted": ["containment is proved on the specification's completion and transported to gqlgen by C01_complete_equiv",
+                    "goroutine placement of recover sites is exercised by the correspondence (a panic that escaped would kill the probe process), not modelled"],
+        "assumptions": ["faults at argument unmarshalers, custom marshalers and subscription events are not enumerated by this check"],
+    },
     "C01": {
         "engine": "c01", "monitors": ["mon"], "finding_checks": {"montn": "typed-nil-in-abstract-position"},
         "engine_timeout": {"quick": 900, "thorough": 7200},
